@@ -393,6 +393,52 @@ def check_affine_algebra(ctx, db):
         n += 1
         ctx.check(out is not None and alg.equal(out, want), 'R-ALGEBRA', 'Reference::repeat_and_transform/point-map|reflection=%s' % (g == -1), inner.loc(), 'every point of the referenced geometry is mapped by origin + offset + m R(rotation) diag(1, %+d) p' % g,
                   'the point map is %s, the documented map gives %s' % (alg.render(out) if out is not None else 'unset', alg.render(want)))
+    # ---- 1b. the elementary maps of Polygon and of the FlexPath spine
+    def vsub(alg, a, b):
+        return alg.vadd(a, b, -1)
+
+    def elementary(alg, name, p, scalar):
+        c = alg.vec(S.atom('center.x'), S.atom('center.y'))
+        if name == 'translate':
+            return alg.vadd(p, alg.vec(S.atom('v.x'), S.atom('v.y')))
+        if name == 'scale':
+            d = vsub(alg, p, c)
+            if scalar:
+                return alg.vadd(alg.vmul(d, S.atom('scael_factor')), c)
+            return alg.vadd(alg.vec(S.mul(d[1], S.atom('scale_factor.x')), S.mul(d[2], S.atom('scale_factor.y'))), c)
+        if name == 'rotate':
+            d = vsub(alg, p, c)
+            C_, Sn = alg.fatom('cos', S.atom('angle')), alg.fatom('sin', S.atom('angle'))
+            return alg.vadd(alg.vec(S.add(S.mul(C_, d[1]), S.mul(Sn, d[2]), -1), S.add(S.mul(Sn, d[1]), S.mul(C_, d[2]))), c)
+        if name == 'mirror':
+            p0, p1 = alg.vec(S.atom('p0.x'), S.atom('p0.y')), alg.vec(S.atom('p1.x'), S.atom('p1.y'))
+            v = vsub(alg, p1, p0)
+            vv = S.add(S.mul(v[1], v[1]), S.mul(v[2], v[2]))
+            d = vsub(alg, p, p0)
+            k = S.mul(S.mul(S.P(2), S.add(S.mul(v[1], d[1]), S.mul(v[2], d[2]))), alg.fatom('inv', vv))
+            return alg.vadd(alg.vadd(alg.vmul(v, k), d, -1), p0)      # p0 + 2 proj_v(p - p0) - (p - p0)
+    for cls, scalar in (('Polygon', False), ('FlexPath', True)):
+        for name in ('translate', 'scale', 'mirror', 'rotate'):
+            f = db.fn('gdstk::%s::%s' % (cls, name))
+            ctx.touch(f)
+            loop = next((l for l in f.walk() if l.k == 'ForStmt'), None)
+            if loop is None:
+                raise AnalysisBroken('%s::%s: point loop not found' % (cls, name))
+            alg = S.Algebra(db, None)
+            env = {}
+            px, py = S.atom('px'), S.atom('py')
+            try:
+                pre = [s_ for s_ in f.body.c if s_ is not None and s_.id < loop.id and s_.k == 'DeclStmt' and not any(v is not None and '*' in (v.t or '') for v in s_.c)]
+                alg.block(pre, env, None)
+                env['*p'] = alg.vec(px, py)
+                b_ = loop.child('body')
+                out = run_point_block(alg, [x for x in b_.c if x is not None] if b_.k == 'CompoundStmt' else [b_], env, 'p')
+            except S.Unsupported as e:
+                raise AnalysisBroken('%s::%s is outside the algebra: %s' % (cls, name, e))
+            want = elementary(alg, name, alg.vec(px, py), scalar)
+            n += 1
+            ctx.check(out is not None and alg.equal(out, want), 'R-ALGEBRA', '%s::%s/point-map' % (cls, name), loop.loc(), 'every %s is mapped by the documented %s' % ('vertex' if cls == 'Polygon' else 'spine point', {'translate': 'p + v', 'scale': 'c + s (p - c)', 'rotate': 'c + R(angle) (p - c)', 'mirror': 'reflection across the line p0 p1'}[name]),
+                      'the map is %s, the documented map gives %s' % (alg.render(out)[:240] if out is not None else 'unset', alg.render(want)[:240]))
     # ---- 2. placement composition
     for qn in ('gdstk::Reference::transform', 'gdstk::Label::transform'):
         f = db.fn(qn)
@@ -442,7 +488,7 @@ def check_affine_algebra(ctx, db):
                           'the updated placement maps p to %s, but T(P(p)) = %s' % (alg.render(alg.expand(got))[:260], alg.render(alg.expand(want))[:260]))
         flip = [x for x in f.walk() if x.k == 'CompoundAssignOperator' and x.op == '^=' and norm(x.child('lhs').text()).endswith('x_reflection') and norm(x.child('rhs').text()) == 'x_refl']
         ctx.check(len(flip) == 1, 'R-ALGEBRA', '%s/reflection-xor' % qn.replace('gdstk::', ''), f.loc(), 'x_reflection ^= x_refl')
-    ctx.require('R-ALGEBRA affine identities', n, 14)
+    ctx.require('R-ALGEBRA affine identities', n, 22)
 
 
 def run_point_block(alg, body, env, pvar):
@@ -464,6 +510,17 @@ def run_point_block(alg, body, env, pvar):
             br = s_.child('then') if c else s_.child('else')
             if br is not None:
                 run_point_block(alg, [br] if br.k != 'CompoundStmt' else [x for x in br.c if x is not None], env, pvar)
+        elif (is_assign(s_) or s_.k in ('CompoundAssignOperator', 'CXXOperatorCallExpr')) and getattr(s_, 'op', None) in ('=', '+=', '-=', '*=') and _is_cursor_deref(s_.args[0] if s_.k == 'CXXOperatorCallExpr' else s_.child('lhs'), pvar):
+            rhs = s_.args[1] if s_.k == 'CXXOperatorCallExpr' else s_.child('rhs')
+            val = val_with_cursor(alg, rhs, env, pvar)
+            cur = env.get(key + '#new') or env[key]
+            if s_.op == '+=':
+                val = alg.vadd(cur, val)
+            elif s_.op == '-=':
+                val = alg.vadd(cur, val, -1)
+            elif s_.op == '*=':
+                val = alg.vmul(cur, val) if not (alg.isvec(cur) and alg.isvec(val)) else alg.vec(S.mul(cur[1], val[1]), S.mul(cur[2], val[2]))
+            env[key + '#new'] = val
         elif is_assign(s_) and s_.op == '=':
             l = _strip_casts(s_.child('lhs'))
             val = val_with_cursor(alg, s_.child('rhs'), env, pvar)
@@ -489,6 +546,16 @@ def run_point_block(alg, body, env, pvar):
     return env.get(key + '#new')
 
 
+def _is_cursor_deref(l, pvar):
+    l = _strip_casts(l)
+    if l is None or l.k != 'UnaryOperator' or l.op != '*':
+        return False
+    sub = _strip_casts(l.child('sub'))
+    while sub.k == 'UnaryOperator' and sub.op in ('post++', '++'):
+        sub = _strip_casts(sub.child('sub'))
+    return sub.k == 'DeclRefExpr' and sub.n == pvar
+
+
 def val_with_cursor(alg, e, env, pvar):
     """Algebra.value with `*c` / `c->x` resolved, for every cursor c that has an element value `*c` in env, to that
     element (its ORIGINAL value: stores through the main cursor go to a shadow copy)."""
@@ -499,6 +566,8 @@ def val_with_cursor(alg, e, env, pvar):
         x0 = _strip_casts(x)
         if x0 is not None and x0.k == 'UnaryOperator' and x0.op == '*':
             sub = _strip_casts(x0.child('sub'))
+            while sub.k == 'UnaryOperator' and sub.op in ('post++', '++'):
+                sub = _strip_casts(sub.child('sub'))
             if sub.k == 'DeclRefExpr' and ('*' + sub.n) in en:
                 return en['*' + sub.n]
         if x0 is not None and x0.k == 'MemberExpr' and x0.n in ('x', 'y'):
@@ -534,7 +603,7 @@ def run(ctx):
 
 
 MANIFEST = dict(
-    text='Decides structural necessary conditions of the documented affine maps: the point map (magnify, reflect y, rotate, translate) is the same normalised code in Polygon::transform, FlexPath::transform and Reference::repeat_and_transform with the rotation rows x cos - y sin / x sin + y cos; Polygon::{translate,scale,mirror,rotate} equal the spine parts of the FlexPath methods; Reference::transform == Label::transform and has the composition shape (r1 from the incoming reflection only; rotation = r1*rotation + rot; magnification *= mag; x_reflection ^= x_refl; origin from the captured old origin); by abstract interpretation over the sign domain for every sign/boolean valuation: offset factors keep their sign under magnification of either sign and flip exactly under reflection, width factors stay positive and are 1 unless scale_width, in FlexPath::scale/transform/mirror and RobustPath::simple_scale/mirror/x_reflection; RobustPath::transform is scale; reflect-if; rotate; translate; every length-valued field of the path element records (from the record layout: widths/offsets, end extensions, bend radius) is rescaled by scale/transform and the along-path lengths by the absolute factor; as polynomial identities with trigonometric expansion, the point maps of Polygon::transform, FlexPath::transform and Reference::repeat_and_transform are exactly t + m R(rotation) diag(1, +-1) p (plus the repetition offset), and Reference::transform / Label::transform store fields whose placement is exactly T o P for all four reflection combinations; Repetition::transform depends on every non-neutral parameter for every kind and valuation and is, as a polynomial identity on all 40 (kind, valuation) paths, m R(rotation) diag(1, +-1). Numerical agreement of outlines is not decided.',
+    text='Decides structural necessary conditions of the documented affine maps: the point map (magnify, reflect y, rotate, translate) is the same normalised code in Polygon::transform, FlexPath::transform and Reference::repeat_and_transform with the rotation rows x cos - y sin / x sin + y cos; Polygon::{translate,scale,mirror,rotate} equal the spine parts of the FlexPath methods; Reference::transform == Label::transform and has the composition shape (r1 from the incoming reflection only; rotation = r1*rotation + rot; magnification *= mag; x_reflection ^= x_refl; origin from the captured old origin); by abstract interpretation over the sign domain for every sign/boolean valuation: offset factors keep their sign under magnification of either sign and flip exactly under reflection, width factors stay positive and are 1 unless scale_width, in FlexPath::scale/transform/mirror and RobustPath::simple_scale/mirror/x_reflection; RobustPath::transform is scale; reflect-if; rotate; translate; every length-valued field of the path element records (from the record layout: widths/offsets, end extensions, bend radius) is rescaled by scale/transform and the along-path lengths by the absolute factor; as polynomial identities with trigonometric expansion, the elementary maps translate/scale/mirror/rotate of Polygon and of the FlexPath spine are exactly p + v, c + s(p - c), the reflection across p0p1 and c + R(angle)(p - c) (Vec2 operators and methods inlined from their header definitions), the point maps of Polygon::transform, FlexPath::transform and Reference::repeat_and_transform are exactly t + m R(rotation) diag(1, +-1) p (plus the repetition offset), and Reference::transform / Label::transform store fields whose placement is exactly T o P for all four reflection combinations; Repetition::transform depends on every non-neutral parameter for every kind and valuation and is, as a polynomial identity on all 40 (kind, valuation) paths, m R(rotation) diag(1, +-1). Numerical agreement of outlines is not decided.',
     note='Trusted: clang front end, gx, sa rules (sa/signs.py interprets literals, unary minus, fabs, products, ternaries, Vec2 initialisers and component stores; anything else evaluates to unknown and fails the obligation). Reference strings for the origin map were confirmed by reading.',
     technique='polynomial identities with symbolic trigonometric expansion (sa/symdiff.py) + clone families over α-normalised ASTs + sign-domain abstract interpretation with exhaustive parameter-sign enumeration + predicate-atom path enumeration',
     design='§4 C10')
